@@ -218,6 +218,25 @@ Example c04_if_calls_example :     (* Template:i = "[{{{1}}}]": {{#if: x | a{{i|
   codes (if_calls_result lib [Ch 120] more) = [97; 91; 112; 93] /\ codes (if_calls_result lib [Ch 32] more) = [91; 113; 93].
 Proof. vm_compute. repeat split. Qed.
 
+(* ... and with calls in the condition too (full expansion): the condition is expanded first, with the function's name, and
+   its result - every call replaced - decides which branch is expanded *)
+Theorem c04_if_with_calls_in_its_condition :
+  forall pfnames lib opts cond more,
+    if_cond_calls_ok pfnames lib cond more = true -> o_parserfns opts = true -> o_tfn opts = [] -> o_pfn opts = [] ->
+    exists F, forall stk fuel, (length stk < 98)%nat -> fresh_items stk cond = true ->
+      forallb (fresh_items stk) more = true -> (F <= fuel)%nat ->
+      expand_T pfnames lib opts fuel stk true ((if_head ++ cond)%list :: more) = Some (if_cond_calls_result lib cond more).
+Proof. exact if_cond_calls. Qed.
+Print Assumptions c04_if_with_calls_in_its_condition.
+
+Example c04_if_cond_calls_example :   (* Template:e = "", Template:i = "[{{{1}}}]": {{#if: {{e}} | yes | {{i|q}} }} gives "[q]" *)
+  let lib := [mktpl [69] [] false; mktpl [73] [Ch 91; A [[Ch 49]]; Ch 93] false] in
+  let more := [[Ch 121; Ch 101; Ch 115]; [Ch 32; T [[Ch 105]; [Ch 113]]; Ch 32]] in
+  if_cond_calls_ok [] lib [Ch 32; T [[Ch 101]]] more = true /\
+  codes (if_cond_calls_result lib [Ch 32; T [[Ch 101]]] more) = [91; 113; 93] /\
+  codes (if_cond_calls_result lib [T [[Ch 105]; [Ch 113]]] more) = [121; 101; 115].
+Proof. vm_compute. repeat split. Qed.
+
 (* ... the same for #ifeq (plain operands, branches of text and flat calls) and for #switch (plain subject and keys,
    values of text and flat calls): only the chosen branch or case value is expanded into the result *)
 Theorem c04_ifeq_with_calls_in_its_branches :
